@@ -149,7 +149,17 @@ func sortOf(t types.Type) *Sort {
 				fs = SBool
 			}
 			if fs == nil {
-				// pointer / interface fields inside data structs become opaque references
+				// a pointer to a message struct inside a data struct is an optional value (nil flag + pointee): the
+				// pointee is read, never shared (A-PTRFIELD); other pointer / interface fields are opaque references
+				if pt, ok := f.Type().Underlying().(*types.Pointer); ok {
+					if _, isStruct := pt.Elem().Underlying().(*types.Struct); isStruct && strings.HasPrefix(namedPath(pt.Elem()), "mods.irisnet.org/") {
+						if es := SortOf(pt.Elem()); es != nil && es.Kind == KData {
+							fs = PtrSort(es)
+						}
+					}
+				}
+			}
+			if fs == nil {
 				switch f.Type().Underlying().(type) {
 				case *types.Pointer, *types.Interface:
 					fs = SRef
@@ -173,6 +183,12 @@ func MapSort(ks, vs *Sort) *Sort {
 	name := "Map<" + ks.Name + "," + vs.Name + ">"
 	return DataSort(name, []Field{{"has", ArraySort(ks, SBool)}, {"val", ArraySort(ks, vs)}})
 }
+
+func PtrSort(es *Sort) *Sort {
+	return DataSort("Ptr<"+es.Name+">", []Field{{"isnil", SBool}, {"val", es}})
+}
+
+func isPtrSort(s *Sort) bool { return s != nil && s.Kind == KData && strings.HasPrefix(s.Name, "Ptr<") }
 
 func isSliceSort(s *Sort) bool { return s != nil && s.Kind == KData && strings.HasPrefix(s.Name, "Slice<") }
 func isMapSort(s *Sort) bool   { return s != nil && s.Kind == KData && strings.HasPrefix(s.Name, "Map<") }
